@@ -936,6 +936,13 @@ func r016(c *Ctx) {
 						return
 					}
 					sc := call.Common().StaticCallee()
+					if sc != nil && foundScanHelper(sc) >= 0 && foundScanHelper(sc) < len(call.Common().Args) {
+						// the scan extracted into a helper of the repository: if anyFound(results) { member; return }
+						if sliceRoot(call.Common().Args[foundScanHelper(sc)]) == root && memberAndLeave(b2.Succs[0]) && core.EdgeDominates(b2, 1, ci.Block()) {
+							foundTested = true
+						}
+						return
+					}
 					if sc == nil || !strings.HasPrefix(sc.Name(), "ContainsFunc") || core.FuncPkg(sc) == nil || core.FuncPkg(sc).Path() != "slices" || len(call.Common().Args) != 2 {
 						return
 					}
@@ -996,6 +1003,78 @@ func r016(c *Ctx) {
 	if n < 2 {
 		r.Undecide("R01.6", "", "skipDirect=true sites", "", fmt.Sprintf("%d sites found, floor 2 (subject-set expansion, computed-subject-set shortcut)", n))
 	}
+}
+
+// memberAndLeave: the block answers "is a member" and returns.
+func memberAndLeave(tb *ssa.BasicBlock) bool {
+	member, leaves := false, false
+	for _, i3 := range tb.Instrs {
+		if c3, ok := i3.(ssa.CallInstruction); ok {
+			if c3.Common().IsInvoke() && c3.Common().Method.Name() == "SetIsMember" {
+				member = true
+			}
+			for _, a := range c3.Common().Args {
+				if f, ok := a.(*ssa.Function); ok && f.Name() == "IsMemberFunc" {
+					member = true
+				}
+			}
+		}
+		if _, ok := i3.(*ssa.Return); ok {
+			leaves = true
+		}
+	}
+	return member && leaves
+}
+
+// foundScanHelper: fn is a repository helper "does one of these traversal results have Found set":
+// it returns a bool, ranges over one slice parameter, and returns true from the branch on an
+// element's Found flag. The index of that parameter, or -1.
+func foundScanHelper(fn *ssa.Function) int {
+	if fn == nil || len(fn.Blocks) == 0 || fn.Signature.Results().Len() != 1 || core.FuncPkg(fn) == nil || !core.IsKeto(core.FuncPkg(fn)) {
+		return -1
+	}
+	if b, ok := fn.Signature.Results().At(0).Type().Underlying().(*types.Basic); !ok || b.Kind() != types.Bool {
+		return -1
+	}
+	res := -1
+	core.Instrs(fn, func(b2 *ssa.BasicBlock, _ int, i2 ssa.Instruction) {
+		ifi, ok := i2.(*ssa.If)
+		if !ok {
+			return
+		}
+		u, ok := ifi.Cond.(*ssa.UnOp)
+		if !ok || u.Op != token.MUL {
+			return
+		}
+		fa, ok := u.X.(*ssa.FieldAddr)
+		if !ok || fieldVarOf(fa) == nil || fieldVarOf(fa).Name() != "Found" {
+			return
+		}
+		elem, ok := core.ValueOrigin(fa.X).(*ssa.UnOp)
+		if !ok {
+			return
+		}
+		ia, ok := elem.X.(*ssa.IndexAddr)
+		if !ok {
+			return
+		}
+		par, ok := sliceRoot(ia.X).(*ssa.Parameter)
+		if !ok {
+			return
+		}
+		for _, i3 := range b2.Succs[0].Instrs {
+			if ret, ok := i3.(*ssa.Return); ok && len(ret.Results) == 1 {
+				if k, ok := ret.Results[0].(*ssa.Const); ok && k.Value != nil && k.Value.String() == "true" {
+					for i, q := range fn.Params {
+						if q == par {
+							res = i
+						}
+					}
+				}
+			}
+		}
+	})
+	return res
 }
 
 // ---- R01.9 fan-out completeness -----------------------------------------------------------------
